@@ -9,7 +9,7 @@ GETTER_TASKS = getter_tasks()
 
 ID = "C08"
 META = {
-    "assumptions": ['A-REAL', 'A-COMM', 'A-T', 'A-IND', 'A-DATA-NONE', 'A-CYTHON', 'A-SOLVER', 'A-ENGINE'],
+    "assumptions": ['A-REAL', 'A-COMM', 'A-T', 'A-IND', 'A-CYTHON', 'A-SOLVER', 'A-ENGINE'],
     "explanation": "update proved to write its own history buffers only at the current index (append-only frame, skolemised row), to write nothing outside the node, its children's subtrees and root.stale, to reset accumulators only on a date change and to leave root.stale False; every security update proved (lemma over its functional spec) to be idempotent: update;update == update on every heap map.",
 }
 MANIFEST_ENTRY = {
